@@ -81,7 +81,8 @@ class Crit(BaseException):
     """a failure that is a BaseException but not an Exception (Event.fail accepts any BaseException)"""
 
 
-EXC = {"Boom": Boom, "Bang": Bang, "ValueError": ValueError, "KeyError": KeyError, "Crit": Crit}
+EXC = {"Boom": Boom, "Bang": Bang, "ValueError": ValueError, "KeyError": KeyError, "Crit": Crit,
+       "IndexError": IndexError, "StopIteration": StopIteration, "RuntimeError": RuntimeError}      # (types the kernel itself uses internally)
 
 
 class AnyVal:
@@ -189,7 +190,7 @@ def gen_script(rng, prof, flavour, idx, nscripts, nev, npids_guess):
             ops.append(["succeed", rng.randrange(nev)] + (["excval"] if rng.random() < 0.08 else ["anyval"] if rng.random() < 0.05
                                                           else ["listval"] if rng.random() < 0.12 else []))
         elif k == "fail" and nev:
-            ops.append(["fail", rng.randrange(nev), rng.choice(["Boom", "Bang", "ValueError", "Boom", "Crit", "StopProcess"])])
+            ops.append(["fail", rng.randrange(nev), rng.choice(["Boom", "Bang", "ValueError", "Boom", "Crit", "StopProcess", "IndexError", "notexc"])])
         elif k == "spawn" and idx + 1 < nscripts:
             ops.append(["spawn", rng.randrange(idx + 1, nscripts)])
             nkids += 1
@@ -213,7 +214,7 @@ def gen_script(rng, prof, flavour, idx, nscripts, nev, npids_guess):
     end = None
     r = rng.random()
     if r < prof.get("p_raise", 0.1):
-        end = ["raise", rng.choice(["Boom", "Bang", "Boom", "Crit", "StopProcess"])]
+        end = ["raise", rng.choice(["Boom", "Bang", "Boom", "Crit", "StopProcess", "IndexError"])]
     elif r < 0.6:
         end = ["ret", f"r{idx}"]
     elif r < 0.63:
@@ -458,7 +459,8 @@ class Runner:
                     tgt = self.shared[op[1]]
                     was = tgt.triggered
                     before = (tgt._ok, tgt._value) if was else None
-                    if mon and not was:
+                    notexc = kind == "fail" and op[2] == "notexc"
+                    if mon and not was and not notexc:
                         mon.trigger(f"E{op[1]}", NORMAL, env.now)
                     try:
                         if kind == "succeed":
@@ -470,13 +472,24 @@ class Runner:
                                 tgt.succeed(["reply-slot", pid, opi])       # a mutable container: waiters get this very object
                             else:
                                 tgt.succeed(f"s{pid}.{opi}")
+                        elif op[2] == "notexc":
+                            # fail() with something that is no exception: refused with ValueError while the event is
+                            # pending -- but an event that was already triggered refuses ANY second trigger with RuntimeError
+                            tgt.fail(f"not-an-exception{pid}.{opi}")
                         else:
                             tgt.fail(make_exc(op[2], f"f{pid}.{opi}", opi))
                         res = "ok"
                     except RuntimeError:
                         res = "RuntimeError"
+                    except ValueError:
+                        res = "ValueError"
                     tape.append((env.now, kind, pid, opi, f"E{op[1]}", res,
                                  before is None or (before[0] is tgt._ok and before[1] is tgt._value)))
+                    if notexc and not was:
+                        # a pending event: refused with ValueError and still pending afterwards
+                        if mon and (res != "ValueError" or tgt.triggered):
+                            mon.bad("fail-with-non-exception-accepted", "fail() with a non-exception did not raise ValueError (or triggered the event)", f"E{op[1]}")
+                        continue
                     if mon:
                         mon.trigger_result(f"E{op[1]}", was, res,
                                            before is None or (before[0] is tgt._ok and before[1] is tgt._value))
